@@ -15,7 +15,7 @@ CLAIMED = {
             "(harness/enc.py, harness/proj.py), value concretisation per type.",
             "DESIGN.md 3.3, 5/C01"),
     "C02": ("TLA+ TdmsSegments: TLC model checking of reader model vs explicit meaning over all valid encodings; "
-            "every reachable encoded file - and its DAQmx twin, padded-metadata, many-properties, 260-clone and 130-fold '
+            "every reachable encoded file - and its DAQmx twin, padded-metadata, many-properties, 260-clone and 130-fold "
             "repeated variants - replayed into TdmsFile.read/open (spec->code conformance)",
             "Exhaustive model checking of the segment-inheritance state machine within small bounds (2-3 segments, "
             "2 channels, all per-object encodings x flags, strings, mixed byte order and raw data layout, a "
